@@ -123,6 +123,7 @@ func runTunnels(prop string) {
 		}
 	}
 	ts := NewTunnelSet(m)
+	ts.SlowConnects = prop == "C16" || prop == "C17"
 	maxBytes := 200_000
 	if prop == "C07" && simrt.Chance(1, 8, "huge") {
 		maxBytes = 4 << 20
